@@ -5,7 +5,7 @@ from factbase import AnchorError, op_place, op_const
 import samesrc
 
 TITLE = "The compiler never crashes on any project"
-TECHNIQUE = "call-graph SCC rule for reference recursion (visited-set insert must dominate the descent), flow rule for unwrapped conversions of file-system names, must-pass-through rule for reporting in the watch loop (MIR)"
+TECHNIQUE = "call-graph SCC rules for reference / type-graph recursion (visited-set insert must dominate the descent; name-only parameters on a cycle), flow rule for unwrapped conversions of file-system names, must-pass-through rules for the selection loops and for reporting in the watch loop, provenance rule for artifact indices (MIR)"
 EXPLANATION = (
     "Only input-dependent crash classes whose truth is visible in the shape of the code are decided; the several "
     "hundred `expect(\"... indicative of a bug in Isograph\")` sites guard internal invariants and are out of reach. "
@@ -17,7 +17,14 @@ EXPLANATION = (
     "that consults the encountered-fields map must insert into it before descending (insert dominates the recursive "
     "call on the absent branch); recursion along the syntax tree of one literal is bounded by input size and exempt. "
     "Other reference-recursive traversals (refetched_paths_with_path) run after the merge traversal on the same "
-    "declarations and are reported as notes. (3) R08.watch-reports: in the watch loop every compile is followed by "
+    "declarations and are reported as notes. R08.type-recursion: a function that lies on a call cycle (trait methods "
+    "of workspace traits linked to their impls) and whose parameters are only the database, names and scalars can only "
+    "be recursing over things it looks up by name - the schema's type graph, which may be cyclic - and cannot carry a "
+    "visited set: such a cycle does not terminate for a self-referential type. R08.validation-complete (shared with "
+    "C16): every iteration of a loop over selections reaches the dispatch on the kind of selection (no `continue` that "
+    "lets a selection escape validation / merging; later passes `expect` validated data). R08.index-provenance (shared "
+    "with C18): the artifact index of a planned WriteFile comes from the new state, never from the old one (an old "
+    "index is out of range after the artifact list shrinks and the writer panics). (3) R08.watch-reports: in the watch loop every compile is followed by "
     "print_result before the loop waits for the next event. Stack depth for deep acyclic programs, arithmetic "
     "overflow and every other panic site are not decided.")
 ASSUMPTIONS = ["entry points are compile_and_print / handle_watch_command", "trait-object calls are not followed"]
@@ -32,6 +39,10 @@ def sccs_of(fb, crates):
     sys.setrecursionlimit(20000)
     owner = lambda f: f.root or f.id
     edges = {}
+    impls = {}
+    for f in fb.fns.values():
+        if f.crate in crates and f.j.get("trait") and f.name:
+            impls.setdefault((f.j["trait"], f.name), []).append(f)
     for f in fb.fns.values():
         if f.crate not in crates or "::tests::" in f.id or "::test::" in f.id:
             continue
@@ -40,6 +51,11 @@ def sccs_of(fb, crates):
             c = t.callee
             if c in fb.fns and fb.fns[c].crate in crates:
                 edges.setdefault(o, set()).add(owner(fb.fns[c]))
+            elif t.j.get("trait") and c not in fb.fns and t.j["trait"].split("::")[0] in crates:
+                # a trait method called through a type parameter: every workspace impl of that method is a target
+                meth = (t.declared or c or "").split("::")[-1]
+                for g in impls.get((t.j["trait"], meth), ()):
+                    edges.setdefault(o, set()).add(owner(g))
     idx, low, st, on, out, i = {}, {}, [], set(), [], [0]
 
     def sc(v):
@@ -172,6 +188,34 @@ def run(cx):
         if c is not comp_:
             cx.note("reference-recursive traversal without its own cycle cut (relies on the merge traversal running first "
                     "on the same declarations): %s" % [x.split("::")[-1] for x in c])
+    # ---- R08.type-recursion: recursion that follows type references by name ---------------------------------
+    NAME_ONLY = (r"^(&?(mut )?([\w:]*::)?IsographDatabase<.*>|u8|u16|u32|u64|usize|i32|i64|bool|char|\(\)|"
+                 r"[\w:]*(EntityName|SelectableName|Name|NameWrapper)|[\w:]*Format)$")
+    tb = cx.mir("isograph_schema", "artifact_content", "graphql_network_protocol")
+    tcr = {"isograph_schema", "artifact_content", "graphql_network_protocol"}
+    tsccs, _ = sccs_of(tb, tcr)
+    ncyc = 0
+    for comp2 in tsccs:
+        fs = [tb.fns[o] for o in comp2 if o in tb.fns]
+        if len(comp2) == 1 and all("memo" in str(g.j.get("expn")) for g in fs):
+            continue    # the #[memo] wrapper calling its own inner function, not a recursion
+        ncyc += 1
+        for g in fs:
+            tys = [g.local_ty(i) for i in range(1, g.argc + 1)]
+            if g.argc and all(re.search(NAME_ONLY, t_) for t_ in tys):
+                cx.ob("R08.type-recursion", "%s|recursive-with-name-only-parameters" % (g.name or g.id.split("::")[-1]), False,
+                      "%s is part of a call cycle (%s) and receives nothing but names and scalars (%s): whatever it "
+                      "recurses over is looked up by name, i.e. it follows references of the schema's type graph, which may "
+                      "be cyclic (`input F { and: [F!] }`), and no visited set can be threaded through these parameters: "
+                      "the recursion does not end" % (g.name, [x.split("::")[-1] for x in comp2][:5], [t_.split("::")[-1] for t_ in tys]),
+                      g.loc())
+    cx.floor("R08.type-recursion call cycles examined", ncyc, 10)
+    # ---- R08.validation-complete (shared with C16): no selection escapes validation --------------------------
+    from props.sel_shared import every_selection_dispatched
+    every_selection_dispatched(cx, cx.mir("isograph_schema"), "R08.validation-complete")
+    # ---- R08.index-provenance (shared with C18) ----------------------------------------------------------------
+    from props.fs_shared import write_index_rule
+    write_index_rule(cx, cx.mir("artifact_content"), "R08.index-provenance")
     # ---- R08.watch-reports ------------------------------------------------------------------------------------
     w = fb.one(r"watch::handle_watch_command::\{closure#0\}$")
     compiles = blocks_calling(w, r"with_duration::WithDuration::<T>::new$")
